@@ -5,6 +5,14 @@ package phttp
 
 // Every HTTP gun shoots at what the pre-resolution answered (the address found, or the configured target itself when the
 // lookup failed: PreResolveTargetAddr returns the target in that case), with its own configuration and answer log.
+// Each gun type is registered with its own default configuration (the HTTP/2 defaults switch SSL on).
+//@ func Import
+//@ props C09 C17 C18
+//@ may_panic true
+//@ at call register.Gun#0 assert [http-gun-gets-the-http-defaults] arg(name) == "http" && len(arg(defaultConfigOptional)) == 1 && arg(defaultConfigOptional)[0] == box(phttp.DefaultHTTPGunConfig)
+//@ at call register.Gun#1 assert [http2-gun-gets-the-http2-defaults] arg(name) == "http2" && len(arg(defaultConfigOptional)) == 1 && arg(defaultConfigOptional)[0] == box(phttp.DefaultHTTP2GunConfig)
+//@ at call register.Gun#2 assert [connect-gun-gets-the-connect-defaults] arg(name) == "connect" && len(arg(defaultConfigOptional)) == 1 && arg(defaultConfigOptional)[0] == box(phttp.DefaultConnectGunConfig)
+
 //@ func Import#lit0
 //@ props C09
 //@ at call phttp.PreResolveTargetAddr assert [the-configured-target] arg(target) == conf.Target
